@@ -12,7 +12,10 @@ Stackings == {"plain", "tls", "pp", "pptls"}
 Phases == {"silent",      \* connected, has not sent a byte (PROXY header / TLS hello / request head outstanding)
            "partial",     \* has sent part of what its first phase needs
            "idle",        \* completed one exchange, connection kept alive
-           "inflight"}    \* request forwarded, origin answers 400 ms later
+           "inflight",    \* request forwarded, origin answers 400 ms later
+           "pipelined"}   \* request forwarded, the origin answers later with a body of 16 MiB; meanwhile - the shutdown has begun -
+                          \* the client sends its next request on the same connection: that one is not served, the answer
+                          \* under way is still delivered in full
 \* when: shutdown begins before or after the listener's own limits (PROXY header / handshake time-out) cut the stalled
 \* peers, or those limits are seconds away (the defaults): then only the shutdown itself can close the stalled peers
 Cases == [stacking : Stackings, clients : (SUBSET Phases) \ {{}}, when : {"before-limits", "after-limits", "limits-far"}]
@@ -28,14 +31,14 @@ Init == /\ phase \in [Phases -> {"absent", "open"}] /\ conns = {p \in Phases : p
 Begin == stage = "serving" /\ stage' = "shutting-down" /\ UNCHANGED <<phase, conns, tracked, served>>
 \* in-flight work finishes; every other connection is closed by the shutdown - or, at some time, by its own limit
 Finish(p) == /\ stage = "shutting-down" /\ p \in conns
-             /\ served' = IF p = "inflight" THEN served \cup {p} ELSE served
+             /\ served' = IF p \in {"inflight", "pipelined"} THEN served \cup {p} ELSE served
              /\ conns' = conns \ {p} /\ tracked' = tracked \ {p} /\ UNCHANGED <<phase, stage>>
 \* Shutdown / Close only wait for and close what is registered
 Return == stage = "shutting-down" /\ tracked = {} /\ stage' = "returned" /\ UNCHANGED <<phase, conns, tracked, served>>
 Next == Begin \/ Return \/ \E p \in Phases : Finish(p)
 Spec == Init /\ [][Next]_vars /\ WF_vars(Next)
 \* when Run has returned nothing is open and the in-flight exchange was completed
-NothingLeaks == stage = "returned" => conns = {} /\ (phase["inflight"] = "open" => "inflight" \in served)
+NothingLeaks == stage = "returned" => conns = {} /\ (\A p \in {"inflight", "pipelined"} : phase[p] = "open" => p \in served)
 Returns == <>(stage = "returned")
 
 \* the same at the level of the process (command/run, runctx, shutdown.go): the shutdown is requested by a signal; an idle
@@ -43,7 +46,8 @@ Returns == <>(stage = "returned")
 \* once; the process exits with status 0 and nothing listens any more
 ProcCases == { c \in [clients : SUBSET {"idle", "inflight"}, sig : {"TERM", "INT"}, second : BOOLEAN] : c.second = ("idle" \in c.clients) }
 ProcExpect(c) == [exit |-> 0, inflightAnswered |-> "inflight" \in c.clients, allClosed |-> TRUE, listening |-> FALSE]
-Expect(c) == [activeConnections |-> 0, inflightAnswered |-> "inflight" \in c.clients, lateClientServed |-> FALSE]
+Expect(c) == [activeConnections |-> 0, inflightAnswered |-> "inflight" \in c.clients, pipelinedAnswered |-> "pipelined" \in c.clients,
+              lateClientServed |-> FALSE]
 EmitCases == /\ \A c \in Cases : PrintT(ToJson([stacking |-> c.stacking, clients |-> c.clients, when |-> c.when, exp |-> Expect(c)]))
              /\ \A c \in ProcCases : PrintT(ToJson([proc |-> c, exp |-> ProcExpect(c)]))
 EmitOnce == (stage = "serving" /\ \A p \in Phases : phase[p] = "absent") => EmitCases
